@@ -1,3 +1,4 @@
+import Fpdec.Kernels.FromStr
 import Fpdec.Lemmas.Parse
 import Fpdec.Lemmas.IntTy
 import Fpdec.Props.C18_Sites
@@ -144,5 +145,18 @@ theorem strip_blank_spec (s : List Nat) :
 example : macroFold Profile.dev [45, 32, 49, 46, 53] = .ok (.ok ⟨-15, 1⟩) := by decide       -- "- 1.5"
 example : macroFold Profile.dev [48, 101, 57, 57] = .ok (.ok ⟨0, 0⟩) := by decide           -- "0e99"
 example : macroFold Profile.dev [49, 101, 51, 57] = .ok (.error .overflow) := by decide     -- "1e39": does not compile
+
+/-! ### translated kernels
+The Lean definitions `Gen.K.*` are regenerated from the Rust source on every run by `tools/fpkernels.py` (expression-level
+translation).  These theorems tie them to the hand-written model the property theorems above are about: a change of the Rust
+kernel that changes its translation breaks them. -/
+/-- `impl FromStr for Decimal` (everything after the parser call), as translated on this run -/
+theorem kernel_decimal_from_str (prof : Profile) (lit : List Nat) : Gen.K.decimal_from_str prof lit = fromStr prof lit :=
+  Kernels.decimal_from_str_eq prof lit
+/-- the `Dec!` proc macro as a function of the literal text (a panic of the macro = does not compile = `Err`), as translated on this
+    run from fpdec-macros/src/lib.rs -/
+theorem kernel_dec_fold (prof : Profile) (src : List Nat) :
+    Gen.K.dec_fold prof (macroStripBlank src) =
+      (fun r => r.map (fun d : Dec => (d.coeff, d.nfrac))) <$> macroFold prof src := Kernels.dec_fold_eq prof src
 
 end Fpdec.Props.C18
